@@ -53,6 +53,7 @@ class Interp(BuiltinsMixin):
         self.max_paths = max_paths
         self.rule = rule
         self.stack = []           # FuncInfo of inlined calls
+        self.try_stack = []       # handler types of the enclosing try bodies
         self.npaths = 0
 
     # ------------------------------------------------------------------
@@ -332,9 +333,10 @@ class Interp(BuiltinsMixin):
                             conds=conds))
 
     def event(self, path, kind, target, name, args, node):
-        path.log.append(Event(kind, target, name, args, tuple(path.pc),
-                              path.loops, node,
-                              tuple(self.stack)))
+        ev = Event(kind, target, name, args, tuple(path.pc), path.loops,
+                   node, tuple(self.stack))
+        ev.tries = tuple(self.try_stack)
+        path.log.append(ev)
 
     def st_If(self, st, fr, path):
         out = []
@@ -352,6 +354,7 @@ class Interp(BuiltinsMixin):
         t = self.truth(cond, path)
         if t is not None:
             return [(path, t)]
+        cond = self.snapshot(cond, path)
         q = path.fork()
         self.assume(cond, True, path)
         self.assume(cond, False, q)
@@ -405,8 +408,9 @@ class Interp(BuiltinsMixin):
                     return True
                 if all(t is False for t in ts):
                     return False
+        sv = self.snapshot(v, path)
         for (c, pol) in path.pc:
-            if c == v:
+            if c == v or c == sv:
                 return pol
         t = self.hooks.truth(self, v, path)
         return t
@@ -598,7 +602,13 @@ class Interp(BuiltinsMixin):
     def st_Try(self, st, fr, path):
         entry = path.fork()
         out = []
-        body_res = self.exec_block(st.body, fr, path)
+        self.try_stack.append(tuple(
+            ast.unparse(h.type) if h.type is not None else 'BaseException'
+            for h in st.handlers))
+        try:
+            body_res = self.exec_block(st.body, fr, path)
+        finally:
+            self.try_stack.pop()
         handled_any_implicit = False
         for (p, sig) in body_res:
             if isinstance(sig, Raise):
